@@ -177,6 +177,10 @@ class NodePathParser(object):
         elif self.current_token != '':
             raise unexpected_char_error(self.current_token[0], self.pos - len(self.current_token))
 
+        else:
+            # Input ended inside a subset selector or a slice, or before any path component
+            raise PathExprParsingError('unexpected end of path expression at position {}'.format(self.pos))
+
         return self.node_path
 
     def handle_left_bracket(self):
